@@ -5,6 +5,7 @@ package interpreter
 
 import (
 	"math"
+	"time"
 
 	"github.com/ah-naf/borno/ast"
 	"github.com/ah-naf/borno/environment"
@@ -255,4 +256,31 @@ func VH_powWhole(k int) {
 	viaOp := evaluateBinary(a, tok(token.POWER, "**", 5), c.n)
 	verifAssert("power-operator-result", hvIsNum(viaOp) && hvSameFloat(hvNum(viaOp), math.Pow(a, c.n)))
 	verifAssert("pow-identical-to-operator", hvIsNum(viaOp) && hvSameFloat(hvNum(viaOp), hvNum(got)))
+}
+
+// VH_clock (C17): ক্লক() is the current Unix time in seconds — between two readings of the
+// system clock taken around the call (within a millisecond), whatever the time zone of the
+// process. In the symbolic run the clock is frozen at an arbitrary instant and the zone offset of
+// time.Local is an arbitrary whole number of hours; natively the counterexample's zone is set
+// through TZ.
+func VH_clock() {
+	in := NewInterpreter()
+	env := environment.NewEnvironmentWithParent(in.globals)
+	utils.HadError, utils.HadRuntimeError = false, false
+	verifClearEvents()
+	t0 := time.Now().UnixMilli()
+	got, _ := in.eval(&ast.Call{Callee: ident(mathNames[9], 5), Paren: tok(token.RIGHT_PAREN, ")", 5)}, env, false)
+	t1 := time.Now().UnixMilli()
+	verifAssert("clock-succeeds", !utils.HadRuntimeError)
+	verifAssert("clock-yields-a-number", hvIsNum(got))
+	if hvIsNum(got) {
+		v := hvNum(got)
+		// (the first test settles the frozen clock of the symbolic run without floating-point
+		// reasoning; the interval is what holds natively)
+		ok := hvSameFloat(v, float64(t0)/1000.0)
+		if !ok {
+			ok = v >= float64(t0-1)/1000.0 && v <= float64(t1+1)/1000.0
+		}
+		verifAssert("clock-is-the-current-unix-time", ok)
+	}
 }
